@@ -104,10 +104,40 @@ where
     println!("{} {} first={} wakes0={} wakes1={} second={}", adapter, which, show(&first), w0, w1, show(&second));
 }
 
+/// signal-hook-mio with mio 1.0: the instance as an event source.  One line per situation:
+///   mio M1 a raise after registration makes the poll return an event and pending() yields the signal once
+///   mio M2 nothing delivered: the poll times out without an event
+///   mio M3 after pending() has drained the pipe a further raise wakes the poll again
+///   mio M4 a signal added later through add_signal is reported too
+fn mio_cases() {
+    use mio::{Events, Interest, Poll as MPoll, Token};
+    let mut poll = MPoll::new().unwrap();
+    let mut events = Events::with_capacity(8);
+    let mut signals = signal_hook_mio::v1_0::Signals::new(&[SIG]).unwrap();
+    poll.registry().register(&mut signals, Token(7), Interest::READABLE).unwrap();
+    // M2 first: nothing delivered yet
+    poll.poll(&mut events, Some(Duration::from_millis(100))).unwrap();
+    println!("mio M2 events={} pending={:?}", events.iter().count(), signals.pending().collect::<Vec<_>>());
+    unsafe { libc::raise(SIG) };
+    poll.poll(&mut events, Some(Duration::from_millis(2000))).unwrap();
+    let n = events.iter().filter(|e| e.token() == Token(7) && e.is_readable()).count();
+    println!("mio M1 events={} pending={:?}", n, signals.pending().collect::<Vec<_>>());
+    unsafe { libc::raise(SIG) };
+    poll.poll(&mut events, Some(Duration::from_millis(2000))).unwrap();
+    let n = events.iter().filter(|e| e.token() == Token(7) && e.is_readable()).count();
+    println!("mio M3 events={} pending={:?}", n, signals.pending().collect::<Vec<_>>());
+    signals.add_signal(libc::SIGUSR2).unwrap();
+    unsafe { libc::raise(libc::SIGUSR2) };
+    poll.poll(&mut events, Some(Duration::from_millis(2000))).unwrap();
+    let n = events.iter().filter(|e| e.token() == Token(7) && e.is_readable()).count();
+    println!("mio M4 events={} pending={:?}", n, signals.pending().collect::<Vec<_>>());
+}
+
 fn main() {
     unsafe {
         libc::alarm(60);
     }
+    mio_cases();
     for which in ["S1", "S2", "S3"].iter() {
         // ---- tokio ----
         {
